@@ -986,6 +986,7 @@ var extAliases = map[string]struct {
 	"binary.Varint#1":           {"encoding/binary.Varint", "Int"},
 	"merkle.HashFromByteSlices": {"github.com/cometbft/cometbft/crypto/merkle.HashFromByteSlices", "Bz"},
 	"ValidatorI.GetTokens":      {"(github.com/cosmos/cosmos-sdk/x/staking/types.ValidatorI).GetTokens", "Int"},
+	"ValidatorI.GetOperator":    {"(github.com/cosmos/cosmos-sdk/x/staking/types.ValidatorI).GetOperator", "Str"},
 }
 
 // mapCard declares the cardinality function of a map sort with the point-update axioms (mathematics of
